@@ -31,7 +31,7 @@ LEVEL_NOTE = ("Coq theorems over executable models of both optimisation modes an
               "exhaustive small-domain stream; thresholds and scores are dyadic (k/8), an integer threshold n is only "
               "used with n-1 a power of two so that linspace(0,1,n) is exactly i/(n-1): the float32 rounding of other "
               "linspace grids is visible only at scores within one ulp of a threshold and is not modelled; "
-              "binned_auroc_floor / binned_auprc_floor: see Props/C06.v for what is proved and what is _partial")
+              "binned_auroc_floor and binned_auprc_floor are proved in full (Props/C06.v) and identified with the C05 specs (Props/C06_vs_C05.v); the multiclass AUROC per-class statement is refuted (known finding)")
 
 
 def cfgv(Tn, mem=False, C=1, macro=True):
